@@ -59,6 +59,15 @@ type assignment struct {
 // assignments of leaf values: every combination of booleans (at most 8), literal and variable
 // spelling of the leaves; ints / strings are distinct small constants rotated by the seed.
 func assignments(ts []typ, seed int64) []assignment {
+	return assignmentsWith(ts, intLeaves, int(seed%4+4)%4)
+}
+
+// altInts: further constant lists tried (rotated) for a tree when the default constants give the
+// table's grouping and the opposite grouping of some edge the same value (e.g. 3 ** -2 ** 5:
+// (-2) ** 5 == -(2 ** 5) because the exponent is odd).
+var altInts = [][]int{intLeaves, {2, 4, 3, 6}}
+
+func assignmentsWith(ts []typ, ints []int, rot int) []assignment {
 	var bpos []int
 	for i, t := range ts {
 		if t == tB {
@@ -77,11 +86,11 @@ func assignments(ts []typ, seed int64) []assignment {
 		}
 		for _, uv := range []bool{false, true} {
 			a := assignment{useVars: uv}
-			ni, ns := int(seed%4+4)%4, int(seed%4+4)%4
+			ni, ns := rot, rot
 			for i, t := range ts {
 				switch t {
 				case tI:
-					v := intLeaves[ni%4]
+					v := ints[ni%4]
 					ni++
 					a.vals = append(a.vals, data.NewIntValue(v))
 					a.lits = append(a.lits, fmt.Sprint(v))
@@ -264,6 +273,7 @@ type rec struct {
 	Scripts   int64          `json:"scripts,omitempty"`
 	Stake     int64          `json:"stake,omitempty"`
 	Explained int64          `json:"explained,omitempty"`
+	Extra     int64          `json:"extra,omitempty"`
 	Fail      *failRec       `json:"fail,omitempty"`
 	Outcomes  map[string]int `json:"outcomes,omitempty"`
 	Edges     map[string]int `json:"edges,omitempty"`
@@ -308,6 +318,7 @@ type worker struct {
 	stake     int64
 	sample    bool
 	explained int64
+	extra     int64
 	disc      map[string]int
 	alt       map[string]int
 }
@@ -643,16 +654,63 @@ func (w *worker) run(item func(string) bool) {
 				w.alt[e.key()] = 1
 			}
 		}
-		for ai, a := range assignments(ts, w.arg.Seed) {
-			w.cases++
-			ref := refOutcome(w.ref, t, a)
-			ps = append(ps, &pending{t: t, idx: idx, ai: ai, a: a, ref: ref})
-			// vacuity guard: do the leaf values tell the table's grouping from the opposite one?
-			for i, e := range stakes {
-				if alts[i] != nil && w.disc[e.key()] == 0 && refOutcome(w.ref, alts[i], a) != ref {
-					w.disc[e.key()] = 1
+		as := assignments(ts, w.arg.Seed)
+		refs := make([]string, len(as))
+		open := map[int]bool{} // edges not yet told apart from their opposite grouping
+		for i := range stakes {
+			if alts[i] != nil {
+				open[i] = true
+			}
+		}
+		tell := func(a assignment, ref string) bool {
+			hit := false
+			for i := range open {
+				if refOutcome(w.ref, alts[i], a) != ref {
+					delete(open, i)
+					w.disc[stakes[i].key()] = 1
+					hit = true
 				}
 			}
+			return hit
+		}
+		for ai, a := range as {
+			refs[ai] = refOutcome(w.ref, t, a)
+			tell(a, refs[ai])
+		}
+		// discriminating constants per tree: while an edge is still open, try the other constant
+		// lists / rotations and keep (as additional cases) those that close at least one edge
+		hasInt := false
+		for _, x := range ts {
+			hasInt = hasInt || x == tI
+		}
+		base := int(w.arg.Seed%4+4) % 4
+		added := 0
+		for li := 0; hasInt && len(open) > 0 && li < len(altInts) && added < 3; li++ {
+			for r := 0; r < 4 && len(open) > 0 && added < 3; r++ {
+				if li == 0 && r == base {
+					continue
+				}
+				cand := assignmentsWith(ts, altInts[li], r)
+				var crefs []string
+				hit := false
+				for _, a := range cand {
+					cr := refOutcome(w.ref, t, a)
+					crefs = append(crefs, cr)
+					if !a.useVars && tell(a, cr) {
+						hit = true
+					}
+				}
+				if hit {
+					as = append(as, cand...)
+					refs = append(refs, crefs...)
+					added++
+					w.extra++
+				}
+			}
+		}
+		for ai, a := range as {
+			w.cases++
+			ps = append(ps, &pending{t: t, idx: idx, ai: ai, a: a, ref: refs[ai]})
 		}
 		if len(ps) >= 48 {
 			w.flush(ps)
@@ -667,7 +725,7 @@ func (w *worker) run(item func(string) bool) {
 		return true
 	})
 	w.flush(ps)
-	w.em.Emit(rec{Kind: "count", Trees: w.trees, Cases: w.cases, Evals: w.evals, Scripts: w.batch.Scripts, Stake: w.stake, Explained: w.explained, Outcomes: w.out, Edges: w.edges, Disc: w.disc, Alt: w.alt})
+	w.em.Emit(rec{Kind: "count", Trees: w.trees, Cases: w.cases, Evals: w.evals, Scripts: w.batch.Scripts, Stake: w.stake, Explained: w.explained, Extra: w.extra, Outcomes: w.out, Edges: w.edges, Disc: w.disc, Alt: w.alt})
 }
 
 func handler(pw *pool.W, raw json.RawMessage) {
@@ -717,7 +775,7 @@ func main() {
 		coreSize = maxFull + 1
 	}
 	counts := map[string]int64{}
-	var trees, cases, evals, scripts, stake, explained int64
+	var trees, cases, evals, scripts, stake, explained, extra int64
 	outcomes := map[string]int{}
 	edges := map[string]int{}
 	disc := map[string]bool{}
@@ -755,6 +813,7 @@ func main() {
 				scripts += r.Scripts
 				stake += r.Stake
 				explained += r.Explained
+				extra += r.Extra
 				for k, v := range r.Outcomes {
 					outcomes[k] += v
 				}
@@ -808,6 +867,7 @@ func main() {
 	c.Set("scripts_executed", scripts)
 	c.Set("edges_whose_parentheses_were_dropped", stake)
 	c.Set("failing_cases_reduced_to_a_smaller_failing_subexpression", explained)
+	c.Set("extra_constant_sets_added_to_discriminate_an_edge", extra)
 	c.Set("distinct_parent_position_child_classes_at_stake", len(edges))
 	var ek []string
 	for k := range edges {
